@@ -459,14 +459,20 @@ func Range(from, exclusive int) fp.Iterator[int] {
 
 func RangeClosed(from, inclusive int) fp.Iterator[int] {
 	i := from
+	// a flag, not i <= inclusive: with inclusive == math.MaxInt the cursor would wrap around and never end
+	done := from > inclusive
 	return fp.MakeIterator(
 		func() bool {
-			return i <= inclusive
+			return !done
 		},
 		func() int {
-			if i <= inclusive {
+			if !done {
 				ret := i
-				i++
+				if i == inclusive {
+					done = true
+				} else {
+					i++
+				}
 				return ret
 			}
 			panic("next on empty iterator")
